@@ -10,6 +10,8 @@ package main
 //   life cancel-send <len>                         SendPackage with a cancelled context
 //   life closed-ops <chan>                         every call after Close
 //   life double-close <chan>                       Close twice
+//   life close-connerrs <k> <size>                 Close of a logical channel after a rejected packet size announcement, with
+//                                                  <k> unread connection errors (the connection's error queue holds 10)
 //   life close-waiting <k>                         Close while a receiver waits on the idle channel, then the receiver's context is cancelled
 //   life conn-close <nchan> <pending> [<gap>]      Conn.Close with <pending> unread packages per channel; logical channel <gap> closed before
 //   life close-pending <chan> <pending> <cap>      Close with <pending> packages of an abandoned response, queue capacity <cap>
@@ -414,6 +416,26 @@ func lifeImpl(line string) string {
 			e.mc.feed(packetize(wDone(0xFD, 0, 0, 0), nil, 4, 0))
 		}
 		return watchdog(wd, func() string { ch.Close(); return "close=ok" })
+	case "close-connerrs":
+		// the connection's error queue is full (<k> packets for a channel that does not exist, nobody reads
+		// the errors), then a package the channel rejects while handling it (an ENVCHANGE announcing the packet
+		// size <v>) arrives for a logical channel, which is then closed: Close returns
+		k := arg(2)
+		v := "0"
+		if len(f) > 3 {
+			v = f[3]
+		}
+		e := newLifeEnv(100)
+		defer e.conn.VerifCancel()
+		ch := e.conn.VerifNewChannel(1)
+		for i := 0; i < k; i++ {
+			body := wDone(0xFD, 1, 0, i)
+			e.mc.feed(append([]byte{4, 1, 0, byte(len(body) + 8), 0, 77, 0, 0}, body...))
+		}
+		time.Sleep(10 * time.Millisecond)
+		e.mc.feed(packetize(append(wEnvChange([3]string{"\x04", v, "512"}), wDone(0xFD, 0, 0, 1)...), nil, 4, 1))
+		time.Sleep(20 * time.Millisecond)
+		return watchdog(wd, func() string { ch.Close(); return "close=ok" })
 	case "abandon-close":
 		// the consumer's callback fails on a package of an unfinished response and the channel (c) or the
 		// connection (n) is closed before the rest arrives: the call that consumes the rest must return
@@ -492,7 +514,7 @@ func lifeOracle(line, out string) string {
 		switch f[1] {
 		case "abandon-close":
 			return "after a channel is closed every call on it reports the closed condition (it does not block)"
-		case "close-pending", "close-errors", "closed-ops", "double-close", "conn-close", "reader-exit", "reader-exit-unknown", "close-waiting":
+		case "close-pending", "close-errors", "close-connerrs", "closed-ops", "double-close", "conn-close", "reader-exit", "reader-exit-unknown", "close-waiting":
 			return "Close returns in bounded time whatever the state of the receive queue and the peer"
 		}
 		return "a call with a cancelled context returns promptly"
@@ -612,6 +634,9 @@ func init() {
 			}
 			for _, c := range []int{0, 1, 2} {
 				emit(Case{Line: fmt.Sprintf("life close-waiting %d", c), Kind: "close-while-receiving"})
+			}
+			for _, k := range []int{0, 9, 10, 11, 14} {
+				emit(Case{Line: fmt.Sprintf("life close-connerrs %d %s", k, []string{"0", "8", "70000", "x"}[k%4]), Kind: "close-with-full-connection-errors"})
 			}
 			for _, c := range []int{0, 1, 7} {
 				emit(Case{Line: fmt.Sprintf("life closed-ops %d", c), Kind: "closed"})
